@@ -1,7 +1,7 @@
 """C15 - episodes stay inside their fold; episode length and walk-forward are exact."""
 import copy
 import math
-from datetime import datetime
+from datetime import datetime, timedelta
 
 import numpy as np
 
@@ -118,7 +118,21 @@ _generate_base = generate
 
 
 def generate(rng, i):
-    return gen_epi.add_timesteps_later(_generate_base(rng, i), 0.2)
+    sc = gen_epi.add_timesteps_later(_generate_base(rng, i), 0.2)
+    env = sc["envs"][0]
+    if env.get("warmup_s") is not None and not env.get("markov") and i % 2 == 0:
+        # the first grid timestep bears only events that are older than the warm-up window (a close stamped before a
+        # long week-end): it is event-bearing all the same, episodes of its fold start there
+        g0 = min(env["grid"])
+        old = core.iso(core.parse_t(g0) - timedelta(seconds=env["warmup_s"] + 3600))
+        hit = False
+        for e in env["events"]:
+            if e["t"] <= g0:
+                e["t"] = old if e["t"] == g0 else min(e["t"], old)
+                hit = True
+        if hit:
+            env["first_timestep_bears_only_events_older_than_the_warmup"] = True
+    return sc
 
 
 def null_action(env):
